@@ -307,7 +307,85 @@ func checkC02Decoded(c wireCase) error {
 		}
 		stats.Class("metamorphic-tag-ext")
 	}
+	// the decoded message is kept as a value copy while the variable it was decoded into receives
+	// another message whose protected header has the same length: the copy still stands for the
+	// bytes it was decoded from
+	if sib := sameLenProtected(len(env.ProtContent())); sib != nil {
+		root, err := rc.MParse(c.Wire, false)
+		if err != nil {
+			return fmt.Errorf("harness: %v", err)
+		}
+		arr := root
+		if c.Spec.Kind != refcose.KSign1Untagged {
+			arr = root.Child
+		}
+		arr.Items[0].Bytes = sib
+		sibWire := root.Enc()
+		kept := &libMsg{kind: m.kind}
+		var derr error
+		switch {
+		case m.s1 != nil:
+			cp := *m.s1
+			kept.s1 = &cp
+			derr = m.s1.UnmarshalCBOR(sibWire)
+		case m.u1 != nil:
+			cp := *m.u1
+			kept.u1 = &cp
+			derr = m.u1.UnmarshalCBOR(sibWire)
+		default:
+			cp := *m.sm
+			kept.sm = &cp
+			derr = m.sm.UnmarshalCBOR(sibWire)
+		}
+		if derr != nil {
+			return finding("rejected", "sibling message (same envelope, other protected header of equal length) rejected: %v\nwire=%x", derr, sibWire)
+		}
+		var vs2 []cose.Verifier
+		var spies2 []*bridge.SpyVerifier
+		for _, sg := range c.Spec.Sigs {
+			sv := &bridge.SpyVerifier{Alg: cose.Algorithm(sg.Key.Alg)}
+			spies2 = append(spies2, sv)
+			vs2 = append(vs2, sv)
+		}
+		if err := kept.verify(ext, vs2...); err != nil {
+			return finding("spy-verify-error", "Verify of a value copy failed after its original variable received another message: %v", err)
+		}
+		for i := range spies2 {
+			if !bytes.Equal(spies2[i].Last().Content, spies[i].Last().Content) {
+				return finding("tbs-mismatch/value-copy-after-redecode", "verifier %d: a value copy of the decoded message yields another ToBeSigned after the variable it was decoded into received another message\nbefore=%x\n after=%x", i, spies[i].Last().Content, spies2[i].Last().Content)
+			}
+		}
+		stats.Class("decoded/value-copy-verified-after-variable-reuse")
+	}
 	stats.Class("decoded/" + c.Spec.Kind.String())
+	return nil
+}
+
+// sameLenProtected returns the encoding of some valid protected map ({text label: bstr}) that is
+// exactly n bytes long (nil when n is too small to hold one).
+func sameLenProtected(n int) []byte {
+	for a := 1; a <= 3; a++ {
+		for _, hw := range []int{1, 2, 3} {
+			k := n - 1 - (1 + a) - hw
+			if k < 0 || (hw == 1 && k >= 24) || (hw == 2 && (k < 24 || k > 255)) || (hw == 3 && (k < 256 || k > 65535)) {
+				continue
+			}
+			out := []byte{0xa1, byte(0x60 + a)}
+			out = append(out, []byte("zzz")[:a]...)
+			switch hw {
+			case 1:
+				out = append(out, byte(0x40+k))
+			case 2:
+				out = append(out, 0x58, byte(k))
+			default:
+				out = append(out, 0x59, byte(k>>8), byte(k))
+			}
+			for i := 0; i < k; i++ {
+				out = append(out, 0xee)
+			}
+			return out
+		}
+	}
 	return nil
 }
 
